@@ -202,6 +202,11 @@ def run(ck):
         for ci, ch in enumerate(chunkings(rng, data, 24 if quick else 120, 2)):
             sid = "%s.t%d" % (tag, ci)
             lines = ["cfg handlers=64 w=20000 k=12", "start", "connect c0 10.1.1.1:1111", "tick"]
+            if ci % 2 == 1:
+                # other connections are open and silent (each its own redundancy group): what is delivered on c0 depends on c0's octets only
+                lines = ["cfg mode=1 handlers=64 w=20000 k=12", "start", "connect c0 10.1.1.1:1111", "tick"]
+                for j in range(1, rng.range(2, 3)):
+                    lines += ["connect c%d 10.1.1.%d:%d" % (j, j + 1, 1111 + j), "tick"]
             for c in ch:
                 lines += ["rx c0 " + c.hex(), "tick %d" % (nfr if len(c) > 1 else 2)]
             lines.append("tick %d" % nfr)
